@@ -323,14 +323,17 @@ func (sjs *sharesJustificationState) ActiveBlocks() uint64 {
 }
 
 func (sjs *sharesJustificationState) Initiate(ctx context.Context) error {
-	sjs.member.MarkInactiveMembers(sjs.previousPhaseAccusationsMessages)
-
+	// Accusations are resolved first: a member whose misbehaviour is confirmed
+	// is disqualified, as it already is for its accuser, no matter whether it
+	// was active in the previous phase.
 	err := sjs.member.ResolveSecretSharesAccusationsMessages(
 		sjs.previousPhaseAccusationsMessages,
 	)
 	if err != nil {
 		return err
 	}
+
+	sjs.member.MarkInactiveMembers(sjs.previousPhaseAccusationsMessages)
 
 	return nil
 }
@@ -530,14 +533,17 @@ func (pjs *pointsJustificationState) ActiveBlocks() uint64 {
 }
 
 func (pjs *pointsJustificationState) Initiate(ctx context.Context) error {
-	pjs.member.MarkInactiveMembers(pjs.previousPhaseMessages)
-
+	// Accusations are resolved first: a member whose misbehaviour is confirmed
+	// is disqualified, as it already is for its accuser, no matter whether it
+	// was active in the previous phase.
 	err := pjs.member.ResolvePublicKeySharePointsAccusationsMessages(
 		pjs.previousPhaseMessages,
 	)
 	if err != nil {
 		return err
 	}
+
+	pjs.member.MarkInactiveMembers(pjs.previousPhaseMessages)
 
 	return nil
 }
